@@ -285,6 +285,34 @@ func runC07(rep *Report, r *Rng, tier string) {
 		runLruCase(o, c, rep)
 		rep.Count("random-histories")
 	}
+	// wide histories: hundreds of keys, long runs of Get hits without any Put in between, and Puts of mid-size bitmaps
+	// that evict dozens to hundreds of entries while others survive; then the survivors are used again
+	{
+		nw := 12
+		if tier == "thorough" {
+			nw = 120
+		}
+		small := bitmapOfClass(1).GetSizeInBytes()
+		for i := 0; i < nw; i++ {
+			nkeys := 150 + r.Intn(250)
+			c := &LruCase{Max: uint64(nkeys) * (ovh + small)}
+			for k := 0; k < nkeys; k++ {
+				c.Ops = append(c.Ops, LruOpJ{Key: uint64(k), Size: 1})
+			}
+			for round := 0; round < 6; round++ {
+				for k, n := 0, 100+r.Intn(200); k < n; k++ { // a long run of hits
+					c.Ops = append(c.Ops, LruOpJ{Get: true, Key: uint64(r.Intn(nkeys))})
+				}
+				c.Ops = append(c.Ops, LruOpJ{Get: true, Key: uint64(round)})                   // the oldest entries, used last
+				c.Ops = append(c.Ops, LruOpJ{Key: uint64(nkeys + round), Size: 3 + r.Intn(3)}) // evicts many, not all
+				for k := 0; k < 20; k++ {
+					c.Ops = append(c.Ops, LruOpJ{Get: true, Key: uint64(r.Intn(nkeys))}, LruOpJ{Key: uint64(r.Intn(nkeys)), Size: r.Intn(3)})
+				}
+			}
+			runLruCase(o, c, rep)
+			rep.Count("wide-histories")
+		}
+	}
 	// many small entries, then one Put that has to evict more than a thousand of them at once (incl. an entry larger
 	// than the whole capacity), and the same under a Go soft memory limit smaller than four times the capacity
 	{
